@@ -3,7 +3,7 @@
 (* C13 / C19 / C14 and the descriptor clauses of C05: the time-rotating    *)
 (* file appender of go-spring/log.                                         *)
 (*                                                                         *)
-(* Time is a tick counter; Int(t) = t \div TPI is the rotation interval of *)
+(* Time is a tick counter; Ivl(t) = t \div TPI is the rotation interval of *)
 (* tick t.  A file is named by the tick its creator read from the clock    *)
 (* (concretely "<name>.<yyyyMMddHHmmss>").  A write call is modelled one   *)
 (* action per segment between two instrumentation points of Write/rotate,  *)
@@ -30,7 +30,7 @@ CONSTANTS Writers,     \* writer goroutines
           MaxRestarts, \* Stop/Start cycles
           UseLock, Retry
 
-Int(t) == t \div TPI
+Ivl(t) == t \div TPI
 NULL == 0
 
 VARIABLES now, dirUp, outages, restarts, running,
@@ -40,10 +40,11 @@ VARIABLES now, dirUp, outages, restarts, running,
           dir,           \* name (tick) -> sequence of write ids; DOMAIN = existing files
           lock,          \* writer holding the rotation mutex, or NULL
           pc, wNow, wOld, wNew, wCur, wFile, wId,   \* per writer
-          nWrites, acked, lost, wStartTick, wEndTick, createdBy, failedCreates
+          nWrites, acked, lost, wStartTick, wEndTick, createdBy, failedCreates,
+          rd, cand, solo, stale   \* clock reading per write; writes running alone; intervals whose creation failed
 vars == <<now, dirUp, outages, restarts, running, marker, file, oldFile, handles, dir, lock,
           pc, wNow, wOld, wNew, wCur, wFile, wId, nWrites, acked, lost, wStartTick, wEndTick,
-          createdBy, failedCreates>>
+          createdBy, failedCreates, rd, cand, solo, stale>>
 
 Idle == \A w \in Writers : pc[w] = "idle"
 OpenHandles == { h \in DOMAIN handles : handles[h].open }
@@ -56,7 +57,7 @@ CloseH(hs, h) == IF h = NULL THEN hs ELSE [hs EXCEPT ![h].open = FALSE]
 
 Init ==
   /\ now = 0 /\ dirUp = TRUE /\ outages = 0 /\ restarts = 0 /\ running = TRUE
-  /\ marker = Int(0)
+  /\ marker = Ivl(0)
   /\ handles = <<[name |-> 0, open |-> TRUE]>> /\ file = 1 /\ oldFile = NULL
   /\ dir = [n \in {0} |-> <<>>]
   /\ lock = NULL
@@ -65,28 +66,29 @@ Init ==
   /\ wId = [w \in Writers |-> 0]
   /\ nWrites = 0 /\ acked = {} /\ lost = {}
   /\ wStartTick = <<>> /\ wEndTick = <<>> /\ createdBy = <<>> /\ failedCreates = 0
+  /\ rd = [i \in 1..MaxWrites |-> 0] /\ cand = {} /\ solo = {} /\ stale = {}
 
 (******************************* environment *******************************)
 Tick == /\ now < MaxTick /\ now' = now + 1
         /\ UNCHANGED <<dirUp, outages, restarts, running, marker, file, oldFile, handles, dir, lock, pc, wNow, wOld,
-                       wNew, wCur, wFile, wId, nWrites, acked, lost, wStartTick, wEndTick, createdBy, failedCreates>>
+                       wNew, wCur, wFile, wId, nWrites, acked, lost, wStartTick, wEndTick, createdBy, failedCreates, rd, cand, solo, stale>>
 DirDown == /\ dirUp /\ outages < MaxOutages /\ dirUp' = FALSE /\ outages' = outages + 1
            /\ UNCHANGED <<now, restarts, running, marker, file, oldFile, handles, dir, lock, pc, wNow, wOld, wNew,
-                          wCur, wFile, wId, nWrites, acked, lost, wStartTick, wEndTick, createdBy, failedCreates>>
+                          wCur, wFile, wId, nWrites, acked, lost, wStartTick, wEndTick, createdBy, failedCreates, rd, cand, solo, stale>>
 DirUp == /\ ~dirUp /\ dirUp' = TRUE
          /\ UNCHANGED <<now, outages, restarts, running, marker, file, oldFile, handles, dir, lock, pc, wNow, wOld,
-                        wNew, wCur, wFile, wId, nWrites, acked, lost, wStartTick, wEndTick, createdBy, failedCreates>>
+                        wNew, wCur, wFile, wId, nWrites, acked, lost, wStartTick, wEndTick, createdBy, failedCreates, rd, cand, solo, stale>>
 \* Stop / Start only with no write in progress (premise of the properties)
 Stop == /\ running /\ Idle /\ restarts < MaxRestarts
         /\ handles' = CloseH(CloseH(handles, oldFile), file)
         /\ oldFile' = NULL /\ file' = NULL /\ running' = FALSE
         /\ UNCHANGED <<now, dirUp, outages, restarts, marker, dir, lock, pc, wNow, wOld, wNew, wCur, wFile, wId,
-                       nWrites, acked, lost, wStartTick, wEndTick, createdBy, failedCreates>>
+                       nWrites, acked, lost, wStartTick, wEndTick, createdBy, failedCreates, rd, cand, solo, stale>>
 Start == /\ ~running /\ Idle /\ dirUp
-         /\ OpenFile(now) /\ file' = Len(handles) + 1 /\ marker' = Int(now)
+         /\ OpenFile(now) /\ file' = Len(handles) + 1 /\ marker' = Ivl(now)
          /\ running' = TRUE /\ restarts' = restarts + 1
          /\ UNCHANGED <<now, dirUp, outages, oldFile, lock, pc, wNow, wOld, wNew, wCur, wFile, wId, nWrites, acked,
-                        lost, wStartTick, wEndTick, createdBy, failedCreates>>
+                        lost, wStartTick, wEndTick, createdBy, failedCreates, rd, cand, solo, stale>>
 
 (********************************* a write *********************************)
 Goto(w, l) == pc' = [pc EXCEPT ![w] = l]
@@ -97,33 +99,34 @@ Begin(w) ==                      \* idle -> "clock": the call starts
   /\ pc[w] = "idle" /\ running /\ nWrites < MaxWrites
   /\ nWrites' = nWrites + 1 /\ wId' = [wId EXCEPT ![w] = nWrites + 1]
   /\ wStartTick' = Append(wStartTick, now)
+  \* a write runs alone if no other call is in progress when it starts and none starts before it returns
+  /\ cand' = IF \A v \in Writers : pc[v] = "idle" THEN {nWrites + 1} ELSE {}
   /\ Goto(w, "clock")
   /\ UEnv /\ UNCHANGED <<marker, file, oldFile, handles, dir, lock, wNow, wOld, wNew, wCur, wFile, acked, lost,
-                         wEndTick, createdBy, failedCreates>>
+                         wEndTick, createdBy, failedCreates, rd, solo, stale>>
 
 ReadClock(w) ==                  \* "clock" -> p1: now := clock; oldTime := marker
   /\ pc[w] = "clock"
   /\ wNow' = [wNow EXCEPT ![w] = now] /\ wOld' = [wOld EXCEPT ![w] = marker]
+  /\ rd' = [rd EXCEPT ![wId[w]] = now]
   /\ Goto(w, "p1")
   /\ UEnv /\ UNCHANGED <<marker, file, oldFile, handles, dir, lock, wNew, wCur, wFile, wId, nWrites, acked, lost,
-                         wStartTick, wEndTick, createdBy, failedCreates>>
+                         wStartTick, wEndTick, createdBy, failedCreates, cand, solo, stale>>
 
-CompareAndSwap(w) ==             \* p1 -> p2 (rotation won) | p20 (nothing to do / lost the race)
+CompareAndSwap(w) ==             \* p1 -> p2 (rotation won) | p20 (nothing to do / somebody else rotates)
   /\ pc[w] = "p1"
-  /\ IF Int(wNow[w]) > wOld[w] /\ marker = wOld[w]
-     THEN marker' = Int(wNow[w]) /\ Goto(w, "p2")
-     ELSE marker' = marker /\ Goto(w, "p20")
-  /\ UEnv /\ UNCHANGED <<file, oldFile, handles, dir, lock, wNow, wOld, wNew, wCur, wFile, wId, nWrites, acked, lost,
-                         wStartTick, wEndTick, createdBy, failedCreates>>
+  /\ IF Ivl(wNow[w]) > wOld[w] /\ marker = wOld[w] /\ (UseLock => lock = NULL)
+     THEN marker' = Ivl(wNow[w]) /\ lock' = (IF UseLock THEN w ELSE lock) /\ Goto(w, "p2")
+     ELSE marker' = marker /\ lock' = lock /\ Goto(w, "p20")
+  /\ UEnv /\ UNCHANGED <<file, oldFile, handles, dir, wNow, wOld, wNew, wCur, wFile, wId, nWrites, acked, lost,
+                         wStartTick, wEndTick, createdBy, failedCreates, rd, cand, solo, stale>>
 
-LockAndCloseOlder(w) ==          \* p2 -> p3: (mutex) ; close the file of two rotations ago
+CloseOlder(w) ==                 \* p2 -> p3: close the file of two rotations ago
   /\ pc[w] = "p2"
-  /\ (UseLock => lock = NULL)
-  /\ lock' = IF UseLock THEN w ELSE lock
   /\ handles' = CloseH(handles, oldFile) /\ oldFile' = NULL
   /\ Goto(w, "p3")
-  /\ UEnv /\ UNCHANGED <<marker, file, dir, wNow, wOld, wNew, wCur, wFile, wId, nWrites, acked, lost, wStartTick,
-                         wEndTick, createdBy, failedCreates>>
+  /\ UEnv /\ UNCHANGED <<marker, file, dir, lock, wNow, wOld, wNew, wCur, wFile, wId, nWrites, acked, lost, wStartTick,
+                         wEndTick, createdBy, failedCreates, rd, cand, solo, stale>>
 
 CreateAndLoad(w) ==              \* p3 -> p4 (created; cur := file) | p20 (creation failed, report, return)
   /\ pc[w] = "p3"
@@ -132,38 +135,40 @@ CreateAndLoad(w) ==              \* p3 -> p4 (created; cur := file) | p20 (creat
           /\ wNew' = [wNew EXCEPT ![w] = Len(handles) + 1]
           /\ wCur' = [wCur EXCEPT ![w] = file]
           /\ createdBy' = Append(createdBy, [w |-> wId[w], name |-> wNow[w], readAt |-> wNow[w]])
-          /\ Goto(w, "p4") /\ UNCHANGED <<lock, failedCreates>>
+          /\ Goto(w, "p4") /\ UNCHANGED <<lock, failedCreates, stale>>
      ELSE /\ failedCreates' = failedCreates + 1
-          /\ lock' = IF lock = w THEN NULL ELSE lock
+          /\ stale' = stale \cup {Ivl(wNow[w])}
+          /\ lock' = (IF lock = w THEN NULL ELSE lock)
           /\ Goto(w, "p20") /\ UNCHANGED <<handles, dir, wNew, wCur, createdBy>>
-  /\ UEnv /\ UNCHANGED <<marker, file, oldFile, wNow, wOld, wFile, wId, nWrites, acked, lost, wStartTick, wEndTick>>
+  /\ UEnv /\ UNCHANGED <<marker, file, oldFile, wNow, wOld, wFile, wId, nWrites, acked, lost, wStartTick, wEndTick,
+                         rd, cand, solo>>
 
 PublishOld(w) ==                 \* p4 -> p5
   /\ pc[w] = "p4" /\ oldFile' = wCur[w] /\ Goto(w, "p5")
   /\ UEnv /\ UNCHANGED <<marker, file, handles, dir, lock, wNow, wOld, wNew, wCur, wFile, wId, nWrites, acked, lost,
-                         wStartTick, wEndTick, createdBy, failedCreates>>
+                         wStartTick, wEndTick, createdBy, failedCreates, rd, cand, solo, stale>>
 PublishNew(w) ==                 \* p5 -> p6
   /\ pc[w] = "p5" /\ file' = wNew[w] /\ Goto(w, "p6")
   /\ UEnv /\ UNCHANGED <<marker, oldFile, handles, dir, lock, wNow, wOld, wNew, wCur, wFile, wId, nWrites, acked, lost,
-                         wStartTick, wEndTick, createdBy, failedCreates>>
+                         wStartTick, wEndTick, createdBy, failedCreates, rd, cand, solo, stale>>
 PublishTime(w) ==                \* p6 -> p7: the pinned tree stores the marker again (it may move backwards)
   /\ pc[w] = "p6"
-  /\ marker' = IF UseLock THEN marker ELSE Int(wNow[w])
+  /\ marker' = IF UseLock THEN marker ELSE Ivl(wNow[w])
   /\ Goto(w, "p7")
   /\ UEnv /\ UNCHANGED <<file, oldFile, handles, dir, lock, wNow, wOld, wNew, wCur, wFile, wId, nWrites, acked, lost,
-                         wStartTick, wEndTick, createdBy, failedCreates>>
+                         wStartTick, wEndTick, createdBy, failedCreates, rd, cand, solo, stale>>
 EndRotate(w) ==                  \* p7 -> p20: unlock, spawn cleanup, return from rotate
-  /\ pc[w] = "p7" /\ lock' = IF lock = w THEN NULL ELSE lock /\ Goto(w, "p20")
+  /\ pc[w] = "p7" /\ lock' = (IF lock = w THEN NULL ELSE lock) /\ Goto(w, "p20")
   /\ UEnv /\ UNCHANGED <<marker, file, oldFile, handles, dir, wNow, wOld, wNew, wCur, wFile, wId, nWrites, acked, lost,
-                         wStartTick, wEndTick, createdBy, failedCreates>>
+                         wStartTick, wEndTick, createdBy, failedCreates, rd, cand, solo, stale>>
 
-LoadForWrite(w) ==               \* p20 -> p21 | done (no file: dropped silently, as after Stop)
+LoadForWrite(w) ==               \* p20 -> p21 | p22 (no file: dropped silently, as after Stop)
   /\ pc[w] = "p20"
   /\ wFile' = [wFile EXCEPT ![w] = file]
-  /\ IF file = NULL THEN Goto(w, "done") /\ lost' = lost \cup {wId[w]}
+  /\ IF file = NULL THEN Goto(w, "p22") /\ lost' = lost \cup {wId[w]}
      ELSE Goto(w, "p21") /\ lost' = lost
   /\ UEnv /\ UNCHANGED <<marker, file, oldFile, handles, dir, lock, wNow, wOld, wNew, wCur, wId, nWrites, acked,
-                         wStartTick, wEndTick, createdBy, failedCreates>>
+                         wStartTick, wEndTick, createdBy, failedCreates, rd, cand, solo, stale>>
 
 DoWrite(w) ==                    \* p21 -> p22 (landed, or lost on a closed file) | p21 (retry on the current file)
   /\ pc[w] = "p21"
@@ -177,16 +182,18 @@ DoWrite(w) ==                    \* p21 -> p22 (landed, or lost on a closed file
                ELSE wFile' = [wFile EXCEPT ![w] = file] /\ Goto(w, "p21") /\ UNCHANGED <<dir, lost>>
           ELSE Goto(w, "p22") /\ lost' = lost \cup {wId[w]} /\ UNCHANGED <<dir, wFile>>
   /\ UEnv /\ UNCHANGED <<marker, file, oldFile, handles, lock, wNow, wOld, wNew, wCur, wId, nWrites, acked,
-                         wStartTick, wEndTick, createdBy, failedCreates>>
+                         wStartTick, wEndTick, createdBy, failedCreates, rd, cand, solo, stale>>
 
-Return(w) ==                     \* p22 | done -> idle
-  /\ pc[w] \in {"p22", "done"}
+Return(w) ==                     \* p22 -> idle
+  /\ pc[w] = "p22"
   /\ acked' = acked \cup {wId[w]} /\ wEndTick' = Append(wEndTick, [id |-> wId[w], at |-> now])
+  /\ solo' = IF wId[w] \in cand THEN solo \cup {wId[w]} ELSE solo
+  /\ cand' = cand \ {wId[w]}
   /\ Goto(w, "idle")
   /\ UEnv /\ UNCHANGED <<marker, file, oldFile, handles, dir, lock, wNow, wOld, wNew, wCur, wFile, wId, nWrites, lost,
-                         wStartTick, createdBy, failedCreates>>
+                         wStartTick, createdBy, failedCreates, rd, stale>>
 
-WriterStep(w) == Begin(w) \/ ReadClock(w) \/ CompareAndSwap(w) \/ LockAndCloseOlder(w) \/ CreateAndLoad(w)
+WriterStep(w) == Begin(w) \/ ReadClock(w) \/ CompareAndSwap(w) \/ CloseOlder(w) \/ CreateAndLoad(w)
                  \/ PublishOld(w) \/ PublishNew(w) \/ PublishTime(w) \/ EndRotate(w)
                  \/ LoadForWrite(w) \/ DoWrite(w) \/ Return(w)
 Env == Tick \/ DirDown \/ DirUp \/ Stop \/ Start
@@ -208,6 +215,11 @@ NoDuplicateAnywhere == \A id \in 1..nWrites : Occurrences(id) <= 1
 EndOf(id) == LET S == { i \in DOMAIN wEndTick : wEndTick[i].id = id } IN wEndTick[CHOOSE i \in S : TRUE].at
 NotBeforeName == \A n \in DOMAIN dir : \A i \in DOMAIN dir[n] :
                     dir[n][i] \in acked => EndOf(dir[n][i]) >= n
+\* C13: issued one at a time, a write after a boundary goes to a file created in the new interval
+\* (unless creation for that interval failed: then C19 applies and the previous file keeps being used)
+FileOf(id) == CHOOSE n \in DOMAIN dir : \E i \in DOMAIN dir[n] : dir[n][i] = id
+SequentialFresh == \A id \in solo :
+                     (id \notin lost /\ Ivl(rd[id]) \notin stale) => Ivl(FileOf(id)) = Ivl(rd[id])
 \* names are the creator's own clock reading
 NameLaw == \A i \in DOMAIN createdBy : createdBy[i].name = createdBy[i].readAt
 \* C05: descriptors
